@@ -45,14 +45,14 @@ Proof.
   rewrite map_repeat'. apply IH.
 Qed.
 
-(* the loop of make_multi_confmaps, with the broadcast of every animal's
+(* PINNED tree: the loop of make_multi_confmaps, with the broadcast of every animal's
    (1, nodes, h, w) map over all samples, is the model function (which computes
    the maximum once and copies it to every sample) *)
 Theorem denote_multi_canon pts n_nodes xv yv sig :
   denote_multi canon_multi pts n_nodes xv yv sig = Some (make_multi_confmaps pts n_nodes xv yv sig).
 Proof.
   unfold denote_multi, canon_multi, make_multi_confmaps, zeros4, maximum_bcast, make_confmaps, zero_map.
-  cbn [mu_zeros mu_reshape mu_call mu_comb mu_ret mdims_eqb mdim_eqb margs_eqb marg_eqb andb Nat.eqb
+  cbn [mu_zeros mu_points mu_call mu_comb mu_ret mdims_eqb mdim_eqb margs_eqb marg_eqb andb Nat.eqb
        mdim_val hd map].
   f_equal. rewrite map_const'.
   exact (fold_map_repeat (fun inst sm => map2 cmap_max sm (map (chan sig xv yv) inst)) (concat pts) _ _).
@@ -66,18 +66,39 @@ Theorem denote_genc_canon4 pts H W sigma s :
   denote_genc canon_genc (SVP4 pts) H W sigma s = Some (generate_confmaps4 pts H W sigma s).
 Proof. reflexivity. Qed.
 
-Theorem denote_genm_canon_instances pts n_nodes H W num sigma s :
-  denote_genm canon_genm false (SVP4 pts) n_nodes H W num sigma s =
-  Some (generate_multiconfmaps pts n_nodes H W num sigma s).
+(* round 4: the callee make_multi_confmaps is read in the variant fx (pinned /
+   repaired); fx = false gives the round-2 statements about ConfMaps.v *)
+Theorem denote_genm_canon_instances_v fx pts n_nodes H W num sigma s :
+  denote_genm fx canon_genm false (SVP4 pts) n_nodes H W num sigma s =
+  Some (generate_multiconfmaps_v fx pts n_nodes H W num sigma s).
 Proof. reflexivity. Qed.
 
-Theorem denote_genm_canon_centroids cents n_nodes H W num sigma s :
-  denote_genm canon_genm true (SVP3 cents) n_nodes H W num sigma s =
-  Some (generate_multiconfmaps_centroids cents H W num sigma s).
+Theorem denote_genm_canon_centroids_v fx cents n_nodes H W num sigma s :
+  denote_genm fx canon_genm true (SVP3 cents) n_nodes H W num sigma s =
+  Some (generate_multiconfmaps_centroids_v fx cents H W num sigma s).
 Proof.
-  unfold denote_genm, canon_genm, generate_multiconfmaps_centroids. cbn.
+  unfold denote_genm, canon_genm, generate_multiconfmaps_centroids_v, cent_pts. cbn.
   rewrite map_map. reflexivity.
 Qed.
+
+Lemma generate_multiconfmaps_v_pinned pts n_nodes H W num sigma s :
+  generate_multiconfmaps_v false pts n_nodes H W num sigma s = generate_multiconfmaps pts n_nodes H W num sigma s.
+Proof. reflexivity. Qed.
+
+Lemma generate_multiconfmaps_centroids_v_pinned cents H W num sigma s :
+  generate_multiconfmaps_centroids_v false cents H W num sigma s =
+  generate_multiconfmaps_centroids cents H W num sigma s.
+Proof. reflexivity. Qed.
+
+Theorem denote_genm_canon_instances pts n_nodes H W num sigma s :
+  denote_genm false canon_genm false (SVP4 pts) n_nodes H W num sigma s =
+  Some (generate_multiconfmaps pts n_nodes H W num sigma s).
+Proof. exact (denote_genm_canon_instances_v false pts n_nodes H W num sigma s). Qed.
+
+Theorem denote_genm_canon_centroids cents n_nodes H W num sigma s :
+  denote_genm false canon_genm true (SVP3 cents) n_nodes H W num sigma s =
+  Some (generate_multiconfmaps_centroids cents H W num sigma s).
+Proof. exact (denote_genm_canon_centroids_v false cents n_nodes H W num sigma s). Qed.
 
 (* ================================================================= (B) *)
 
@@ -100,8 +121,10 @@ Proof.
   intros Hs Hsig. apply Qmult_lt_0_compat; [exact Hsig|]. unfold Qlt, inject_Z; simpl. lia.
 Qed.
 
-(* generate_multiconfmaps: cell (i, j) of channel c is the maximum, over the
-   first num_instances animals of ALL samples (the code broadcasts), of the
+(* PINNED tree (before the repair of finding F60, see Entry.v / Lemmas3.v for the
+   per-sample statements).  generate_multiconfmaps: cell (i, j) of channel c is the
+   maximum, over the first num_instances animals of ALL samples (the pinned code
+   broadcasts every animal over the samples), of the
    Gaussian bump of node c at image position (j*stride, i*stride) with standard
    deviation sigma*stride *)
 Theorem generate_multiconfmaps_cell pts n_nodes H W num sigma s smp c i j :
@@ -133,7 +156,7 @@ Proof.
   induction ll as [|l ll IH]; simpl; [reflexivity|]. rewrite map_app, IH. reflexivity.
 Qed.
 
-(* centroid variant: one channel, maximum over the first num_instances centroids *)
+(* PINNED tree, centroid variant: one channel, maximum over the first num_instances centroids of ALL samples *)
 Theorem generate_multiconfmaps_centroids_cell cents H W num sigma s smp i j :
   (0 < s)%nat -> (0 < sigma)%Q ->
   (i * s < H)%nat -> (j * s < W)%nat -> (smp < length cents)%nat ->
@@ -204,7 +227,7 @@ Proof.
   apply Qlt_Rlt in Hs. rewrite Q2R_0 in Hs. lra.
 Qed.
 
-(* a channel whose node is missing in every contributing animal is identically 0 *)
+(* PINNED tree: a channel whose node is missing in every contributing animal of ALL samples is identically 0 *)
 Theorem multi_confmaps_missing_channel_zero pts n_nodes xv yv sig smp c i j x y :
   (0 < sig)%Q -> nth_error yv i = Some y -> nth_error xv j = Some x ->
   (c < n_nodes)%nat -> (smp < length pts)%nat ->
